@@ -922,15 +922,28 @@ class SyncObj(object):
                 if prevEntries[0][2] != prevLogTerm:
                     self.__sendNextNodeIdx(node, nextNodeIdx = prevLogIdx, success = False, reset=True)
                     return
-                if len(prevEntries) > 1:
+                nextNodeIdx = prevLogIdx + 1
+                if newEntries:
+                    nextNodeIdx = newEntries[-1][1] + 1
+
+                # Entries that are already in the log (same index and term) are kept,
+                # the log is cut only at the first entry that conflicts with a new one.
+                existingEntries = prevEntries[1:]
+                matched = 0
+                while matched < len(existingEntries) and matched < len(newEntries) and \
+                        existingEntries[matched][1] == newEntries[matched][1] and \
+                        existingEntries[matched][2] == newEntries[matched][2]:
+                    matched += 1
+                if matched < len(existingEntries) and matched < len(newEntries):
                     # rollback cluster changes
                     if self.__conf.dynamicMembershipChange:
-                        for entry in reversed(prevEntries[1:]):
+                        for entry in reversed(existingEntries[matched:]):
                             clusterChangeRequest = self.__parseChangeClusterRequest(entry[0])
                             if clusterChangeRequest is not None:
                                 self.__doChangeCluster(clusterChangeRequest, reverse=True)
 
-                    self.__deleteEntriesFrom(prevLogIdx + 1)
+                    self.__deleteEntriesFrom(prevLogIdx + 1 + matched)
+                newEntries = newEntries[matched:]
                 for entry in newEntries:
                     self.__raftLog.add(*entry)
 
@@ -940,10 +953,6 @@ class SyncObj(object):
                         clusterChangeRequest = self.__parseChangeClusterRequest(entry[0])
                         if clusterChangeRequest is not None:
                             self.__doChangeCluster(clusterChangeRequest)
-
-                nextNodeIdx = prevLogIdx + 1
-                if newEntries:
-                    nextNodeIdx = newEntries[-1][1] + 1
 
                 self.__sendNextNodeIdx(node, nextNodeIdx=nextNodeIdx, success=True)
 
